@@ -145,6 +145,13 @@ def cmd_recheck(args):
             else:
                 work = '/tmp/seed_recheck_work_%d' % os.getpid()
                 hit = False
+                if args.demo:
+                    # the demonstration against the patched tree (hard-coded scratch paths inside the
+                    # demo no longer exist; PYTHONPATH provides the tree)
+                    denv = dict(os.environ, PYTHONWARNINGS='ignore', PYTHONPATH=repo)
+                    rcd, outd = sh(['/venv/bin/python', os.path.join(d, 'demo.py')], cwd=repo, env=denv,
+                                   timeout=1800)
+                    line += ' demo=%s' % ('fails(as expected)' if rcd != 0 else 'PASSES?')
                 for pid in checks:
                     rc, wall, first = run_check(pid, repo, work, args.tier, args.seed)
                     line += ' %s=%s(%.0fs)' % (pid, {0: 'quiet', 1: 'FIRED', 2: 'inconcl'}.get(rc, rc), wall)
@@ -185,6 +192,7 @@ def main():
     r.add_argument('--tier', default='quick')
     r.add_argument('--seed', type=int)
     r.add_argument('--update', action='store_true')
+    r.add_argument('--demo', action='store_true', help='also run demo.py against the patched tree')
     args = ap.parse_args()
     if args.cmd == 'eval':
         return cmd_eval(args)
